@@ -357,7 +357,7 @@ func (m *flowSmall) checkPost(fn *ssa.Function, e *eng.Engine) {
 func (m *flowSmall) checkFlowRun(fn *ssa.Function, e *eng.Engine) {
 	for _, rt := range e.Returns {
 		ok := !rt.Panic && len(rt.Vals) == 1 && rt.Vals[0].K == eng.KEv && e.SiteClass[rt.Vals[0].S] == "ChildRun" && rt.Vals[0].I == 1
-		m.col.Check("C10.R7", "Flow.Run:return", ok, rt.Pos, "Flow.Run must return the error of Run(ctx, flow, shared)", nil)
+		m.col.Check("C10.R7,C02.R7", "Flow.Run:return", ok, rt.Pos, "Flow.Run must return the error of Run(ctx, flow, shared)", nil)
 	}
 }
 
@@ -395,27 +395,32 @@ func (m *flowSmall) checkNewFlow(fn *ssa.Function, e *eng.Engine) {
 
 // baseNodeDefaults checks maxRetries == 1 and every other numeric/string field zero.
 func baseNodeDefaults(r *Roles, bn *eng.Term) (bool, string) {
-	st := r.BaseNode.Underlying().(*types.Struct)
-	for i := 0; i < st.NumFields(); i++ {
-		f := st.Field(i)
-		v := bn.A[i]
-		b, isBasic := f.Type().Underlying().(*types.Basic)
-		if !isBasic {
-			continue
+	// the defaults are what the getters answer for a node built from no options: one attempt,
+	// no wait, sequential, continue-on-error - read at the locations the getters read
+	leaves := getterLeaves(r.P, r)
+	want := map[string]func(v *eng.Term) bool{
+		"GetMaxRetries":       func(v *eng.Term) bool { return v.IsConstInt() && v.I == 1 },
+		"GetWait":             func(v *eng.Term) bool { return v.IsConstInt() && v.I == 0 },
+		"GetBatchConcurrency": func(v *eng.Term) bool { return v.IsConstInt() && v.I == 0 },
+		"GetBatchErrorHandling": func(v *eng.Term) bool {
+			s, ok := v.StringConst()
+			return ok && (s == "" || s == "continue")
+		},
+	}
+	for _, g := range []string{"GetMaxRetries", "GetWait", "GetBatchConcurrency", "GetBatchErrorHandling"} {
+		lf, ok := leaves[g]
+		if !ok {
+			return false, "cannot tell which field " + g + " reads"
 		}
-		switch {
-		case f.Name() == "maxRetries":
-			if !(v.IsConstInt() && v.I == 1) {
-				return false, "maxRetries = " + v.Pretty()
-			}
-		case b.Info()&types.IsInteger != 0:
-			if !(v.IsConstInt() && v.I == 0) {
-				return false, f.Name() + " = " + v.Pretty()
-			}
-		case b.Info()&types.IsString != 0:
-			if s, ok := v.StringConst(); !ok || s != "" {
-				return false, f.Name() + " = " + v.Pretty()
-			}
+		v := lf.at(bn)
+		if v == nil {
+			return false, lf.key + " not found in the constructed node"
+		}
+		if v.K == eng.KZero {
+			v = eng.ZeroOf(v.T)
+		}
+		if !want[g](v) {
+			return false, lf.key + " = " + v.Pretty()
 		}
 	}
 	return true, ""
@@ -513,7 +518,7 @@ func (m *flowRunMon) OnEvent(c *eng.Ctx, ms eng.MState, ev *eng.Event) eng.MStat
 	if ev.Kind == "call" && ev.Class == "ChildRun" && len(ev.Args) == 3 {
 		fn := ev.Fn
 		ok := ev.Args[0] == eng.Param(1, fn.Params[1].Name()) && unbox(ev.Args[1]) == eng.Param(0, fn.Params[0].Name()) && ev.Args[2] == eng.Param(2, fn.Params[2].Name())
-		m.col.Check("C10.R7", "Flow.Run:run-call", ok, ev.Pos, "Flow.Run must run the flow itself through Run with the caller's context and store, got ("+prettyArgs(ev.Args)+")", pathIf(!ok, c))
+		m.col.Check("C10.R7,C02.R7", "Flow.Run:run-call", ok, ev.Pos, "Flow.Run must run the flow itself through Run with the caller's context and store, got ("+prettyArgs(ev.Args)+")", pathIf(!ok, c))
 	}
 	return ms
 }
